@@ -126,9 +126,27 @@ def gen_module(rng):
             base = rng.randrange(i)
         own = []
         for m in rng.sample(['test_a', 'test_b', 'test_c', 'test_d'], rng.randint(0, 3)):
-            own.append([m, rng.random() < 0.4])
+            ent = [m, rng.random() < 0.4]
+            if rng.random() < 0.2:
+                # another decorator on the same method: under the tag ('tag-outside') or over it ('tag-inside')
+                ent.append(rng.choice(['wraps:tag-outside', 'wraps:tag-inside', 'patch:tag-outside', 'patch:tag-inside']))
+            own.append(ent)
         classes.append({'name': name, 'base': base, 'tag': rng.random() < 0.25, 'own': own})
     return classes
+
+
+def wrapper_of(kind):
+    import functools
+    from unittest import mock
+    if kind.startswith('patch'):
+        return mock.patch('os.getcwd')
+
+    def deco(fn):
+        @functools.wraps(fn)
+        def inner(*a, **kw):
+            return fn(*a, **kw)
+        return inner
+    return deco
 
 
 def build_classes(classes, log=None):
@@ -136,15 +154,22 @@ def build_classes(classes, log=None):
     built = []
     for c in classes:
         ns = {}
-        for m, tg in c['own']:
+        for ent in c['own']:
+            m, tg = ent[0], ent[1]
+            wrap = ent[2] if len(ent) > 2 else None
+
             def make(cname=c['name'], mname=m):
-                def test(self):
+                def test(self, *extra):
                     if log is not None:
                         log.append('%s.%s' % (type(self).__name__, mname))
                 test.__name__ = mname
                 return test
             f = make()
-            if tg:
+            if wrap and wrap.endswith('tag-inside') and tg:
+                f = tag(f)
+            if wrap:
+                f = wrapper_of(wrap)(f)
+            if tg and not (wrap and wrap.endswith('tag-inside')):
                 f = tag(f)
             ns[m] = f
         bases = (built[c['base']],) if c['base'] is not None else (rtc.ReferenceTestCase,)
@@ -174,8 +199,8 @@ def expected_selection(classes, tagged, check, names=None):
     def methods(i):
         c = classes[i]
         d = dict(methods(c['base'])) if c['base'] is not None else {}
-        for m, tg in c['own']:
-            d[m] = tg
+        for ent in c['own']:
+            d[ent[0]] = ent[1]
         return d
     run, listed = [], []
     for i, c in enumerate(classes):
@@ -196,8 +221,8 @@ def expected_selection(classes, tagged, check, names=None):
 def all_methods(classes, i):
     c = classes[i]
     d = dict(all_methods(classes, c['base'])) if c['base'] is not None else {}
-    for m, tg in c['own']:
-        d[m] = tg
+    for ent in c['own']:
+        d[ent[0]] = ent[1]
     return d
 
 
@@ -221,7 +246,14 @@ def expected_for_method_name(classes, tagged, check, name):
 MODULE_TEMPLATE = '''
 import sys
 sys.path.insert(0, %(repo)r)
+import functools
+from unittest import mock
 from tdda.referencetest import ReferenceTestCase, tag
+def _wrapping(fn):
+    @functools.wraps(fn)
+    def inner(*a, **kw):
+        return fn(*a, **kw)
+    return inner
 LOG = %(log)r
 def _log(s):
     with open(LOG, 'a') as f:
@@ -237,8 +269,20 @@ def module_source(classes, logpath):
     for c in classes:
         base = classes[c['base']]['name'] if c['base'] is not None else 'ReferenceTestCase'
         body = []
-        for m, tg in c['own']:
-            body.append('%s    def %s(self):\n        _log(type(self).__name__ + ".%s")\n' % ('    @tag\n' if tg else '', m, m))
+        for ent in c['own']:
+            m, tg = ent[0], ent[1]
+            wrap = ent[2] if len(ent) > 2 else None
+            decos = []
+            wline = None
+            if wrap:
+                wline = "    @mock.patch('os.getcwd')\n" if wrap.startswith('patch') else '    @_wrapping\n'
+            if tg and not (wrap and wrap.endswith('tag-inside')):
+                decos.append('    @tag\n')
+            if wline:
+                decos.append(wline)
+            if tg and wrap and wrap.endswith('tag-inside'):
+                decos.append('    @tag\n')
+            body.append('%s    def %s(self, *extra):\n        _log(type(self).__name__ + ".%s")\n' % (''.join(decos), m, m))
         if not body:
             body = ['    pass\n']
         parts.append('%sclass %s(%s):\n%s' % ('@tag\n' if c['tag'] else '', c['name'], base, ''.join(body)))
@@ -308,7 +352,8 @@ class C19(core.Prop):
             return [{'op': 'c19.parse_argv', 'argv': case['argv']}]
         if case.get('names'):
             return []       # narrowing by name is unittest's: not modelled, oracle only
-        return [{'op': 'c19.select', 'classes': case['classes'], 'tagged': case['tagged'], 'check': case['check']}]
+        plain = [dict(c, own=[ent[:2] for ent in c['own']]) for c in case['classes']]    # (other decorators are not the model's business)
+        return [{'op': 'c19.select', 'classes': plain, 'tagged': case['tagged'], 'check': case['check']}]
 
     def impl_outputs(self, case):
         if case['kind'] == 'argv':
@@ -345,7 +390,7 @@ class C19(core.Prop):
         self.count('kind_' + case['kind'])
         if case['kind'] == 'argv':
             return json.dumps(case['argv']) if len(case['argv']) >= 3 else None
-        t = [tg or c['tag'] for c in case['classes'] for _, tg in c['own']]
+        t = [ent[1] or c['tag'] for c in case['classes'] for ent in c['own']]
         return json.dumps(case, sort_keys=True) if (any(t) and not all(t)) else None
 
     def oracle(self, case):
